@@ -279,6 +279,7 @@ def execute(plan):
                     m["F_def"] = m["W_def"] = True
                     m["aligned"] = True
                     m["F_from_solve"] = True
+                    m["cost_ok"] = True
                     got_ns = [int(x) for x in solver.Ns]
                     if got_ns != cur["Ns"]:
                         bump(res["probes"], "solve_dropped_streams")
@@ -301,6 +302,7 @@ def execute(plan):
                     m["F_def"] = True
                     m["aligned"] = False
                     m["last_setter"] = "randomizeF"
+                    m["cost_ok"] = False
                     m["F_from_solve"] = False
                 elif o == "set_precoders":
                     rs = np.random.RandomState(op["seed"])
@@ -323,6 +325,7 @@ def execute(plan):
                     m["F_def"] = True
                     m["aligned"] = False
                     m["last_setter"] = "set_precoders"
+                    m["cost_ok"] = False
                     m["F_from_solve"] = False
                 elif o == "set_receive_filters":
                     rs = np.random.RandomState(op["seed"])
@@ -334,9 +337,23 @@ def execute(plan):
                     m["W_def"] = True
                     m["aligned"] = False
                     m["last_setter"] = "set_receive_filters"
+                    m["cost_ok"] = False
                 elif o == "set_P":
+                    oldP = np.array(m["P"])
+                    c0 = None
+                    if (kind in ("altmin", "minleak") and m["F_def"] and m["W_def"] and m.get("cost_ok") and len(set(oldP)) == 1
+                            and not plan["noise_var"]):       # with noise the reported cost also contains the (power independent) noise term
+                        c0 = float(np.real(solver.get_cost()))
                     solver.P = py_P(op["P"])
                     set_model_P(op["P"])
+                    if c0 is not None and len(set(m["P"])) == 1 and c0 > 1e-12:
+                        # the leaked interference power is linear in a common transmit power
+                        c1 = float(np.real(solver.get_cost()))
+                        want = c0 * m["P"][0] / oldP[0]
+                        bump(res["probes"], "cost_read_after_power_change")
+                        if abs(c1 - want) > 1e-6 * abs(want) + 1e-9:      # 1e-9: numerical floor of a converged (zero) leakage
+                            viol("cost", step, "get_cost() = %.9g after the common power went from %g to %g; the leaked interference power was %.9g and is linear in the power (expected %.9g)" % (
+                                c1, oldP[0], m["P"][0], c0, want), rel="cost_scaling")
                     m["last_setter"] = "P"
                     m["F_from_solve"] = False
                 elif o == "clear":
@@ -346,6 +363,7 @@ def execute(plan):
                     m["F_def"] = m["W_def"] = False
                     m["aligned"] = False
                     m["last_setter"] = "clear"
+                    m["cost_ok"] = False
                     m["F_from_solve"] = False
                     if kind != "closed":
                         solver.max_iterations = plan["max_iterations"]
@@ -357,6 +375,18 @@ def execute(plan):
                                 c = solver.get_cost()
                                 if not (np.real(c) >= -1e-9):
                                     viol("cost", step, "get_cost() = %r is negative" % (c,), rel="cost")
+                                elif kind == "minleak" and not plan["noise_var"]:
+                                    fF, Wc = solver.full_F, solver.W
+                                    ref = 0.0
+                                    for k_ in range(K):
+                                        Q = np.zeros((Nr[k_], Nr[k_]), dtype=complex)
+                                        for l_ in range(K):
+                                            if l_ != k_:
+                                                A = ch.get_Hkl(k_, l_) @ fF[l_]
+                                                Q = Q + A @ A.conj().T
+                                        ref += float(np.sum(np.abs(np.diag(Wc[k_].conj().T @ Q @ Wc[k_]))))
+                                    if abs(float(np.real(c)) - ref) > 1e-8 * max(1.0, ref) + 1e-9:
+                                        viol("cost", step, "get_cost() = %.9g but the interference leaked through the current filters is %.9g" % (float(np.real(c)), ref), rel="cost_value")
                         elif what in ("F", "full_F", "Ns", "P"):
                             if m["F_def"] or what == "P":
                                 getattr(solver, what)
